@@ -314,7 +314,7 @@ class Program:
         if r < 0.5:
             opts["patterns"] = ["full", "uniform", "mixed"]
         self.world = gen_world(rng, opts)
-        self.gen = Gen(rng, self.world, {"dist_dups": True})
+        self.gen = Gen(rng, self.world)
         r = rng.random()
         self.n_prefix = rng.randint(0, 3) if r < 0.6 else rng.randint(2, 8) if r < 0.92 else rng.randint(6, 12)
         # quick tier: an interrupted program costs ten re-executions, a rejected one costs one - two thirds of the
@@ -322,7 +322,7 @@ class Program:
         self.fault_kind = rng.choice(FAULT_KINDS if tier == "thorough" else FAULT_KINDS[:4] * 2 + FAULT_KINDS[4:6] + FAULT_KINDS[7:] * 2)
         self.exc_kind = rng.choice(["interrupt", "interrupt", "error"])
 
-    def liquid_op(self, sess, intent):
+    def liquid_op(self, sess, intent, terminal=False):
         rng = self.rng
         g = self.gen
         evo = self.world["device"] == "evo"
@@ -335,7 +335,10 @@ class Program:
         if r < 0.40:
             return g.gen_transfer(sess, intent if intent in ("ok", "reject.underflow", "reject.overflow", "reject.oversize") else "ok")
         if r < 0.55:
-            if intent == "ok" and rng.random() < 0.12:
+            if intent == "ok" and terminal and rng.random() < 0.25:
+                # only as the last operation of a program: a destination named twice is booked twice by the twin
+                # but served once by the R record (which is why C01 excludes coinciding positions from its
+                # quantifier) - anything pipetted out of that well afterwards would go by a twin that is ahead
                 d = g.gen_distribute_dupgap(sess)
                 if d is not None:
                     return d
@@ -391,6 +394,14 @@ class Program:
             op["vform"] = rng.choice(["tuple", "ndarray"])
         return op
 
+    def source(self, i, sess):
+        nxt = self._source(i, sess)
+        self.last_op = nxt[0] if nxt is not None else None
+        if nxt is not None and nxt[0]["op"] in ("aspirate", "dispense", "transfer", "distribute", "evo_aspirate", "evo_dispense") \
+                and not str(nxt[0].get("intent", "")).startswith("reject"):
+            self.last_liquid = nxt[0]
+        return nxt
+
     def followup(self, prev, view):
         """an invalid call was let through silently: the script goes for the very wells it named with a volume no
         well can afford (aspirate) resp. hold (dispense) - whatever the let-through call did to the bookkeeping of
@@ -398,9 +409,11 @@ class Program:
         from ..sim.geom import enc, flatten_f
         rng, g = self.rng, self.gen
         if prev["op"] == "transfer":
-            li, wells = prev["src"], prev["sw"]
-        elif prev["op"] in ("aspirate", "dispense"):
+            li, wells = (prev["src"], prev["sw"]) if rng.random() < 0.5 else (prev["dst"], prev["dw"])
+        elif prev["op"] in ("aspirate", "dispense", "evo_aspirate", "evo_dispense"):
             li, wells = prev["lab"], prev["wells"]
+        elif prev["op"] == "distribute":
+            li, wells = prev["dst"], prev["dw"]
         else:
             return None
         geo = g.geos[li]
@@ -421,13 +434,25 @@ class Program:
         return {"op": kind, "lab": li, "wells": wells, "volumes": enc(float(v)), "label": None, "comps": None,
                 "intent": "reject." + ("underflow" if kind == "aspirate" else "overflow") + "@followup"}
 
-    def source(self, i, sess):
+    def _source(self, i, sess):
         rng = self.rng
         prev, self.pending_invalid = getattr(self, "pending_invalid", None), None
         if prev is not None and sess.sess.events and sess.sess.events[-1][2] == "ok":
             op = self.followup(prev, sess)
             if op is not None:
                 return op, True
+        if 0 < i < self.n_prefix and rng.random() < 0.10 and sess.sess.events and sess.sess.events[-1][2] == "ok":
+            # the script repeats its previous call verbatim (a loop body executed twice); if the repetition does
+            # not fit any more it is refused and thereby becomes the terminal fault
+            last = getattr(self, "last_op", None)
+            if last is not None and last["op"] in ("aspirate", "dispense", "transfer", "distribute", "evo_aspirate", "evo_dispense"):
+                import copy
+                rep = copy.deepcopy(last)
+                rep.pop("inject", None)
+                if rng.random() < 0.5 and rep.get("label"):
+                    rep["label"] = None  # only the first iteration of the loop is labelled
+                self.repeated = rep
+                return rep, False
         if i < self.n_prefix:
             r = rng.random()
             if r < 0.04:
@@ -448,12 +473,20 @@ class Program:
             return self.liquid_op(sess, "ok"), False
         if i == self.n_prefix:
             fk = self.fault_kind
+            last = getattr(self, "repeated", None) or getattr(self, "last_liquid", None)
+            if fk in ("reject.underflow", "reject.overflow") and last is not None and \
+                    (getattr(self, "repeated", None) is not None or rng.random() < 0.3):
+                # the aimed rejection goes for the wells of the last liquid operation: whatever that operation
+                # really did to them, a step none of them can afford / hold must be refused
+                op = self.followup(last, sess)
+                if op is not None:
+                    return op, True
             if fk == "interrupt.save":
                 # the terminal operation is an explicit save to the worklist's own path, cut short by an interrupt;
                 # what counts is the file the real __exit__ then writes
                 return {"op": "save_main"}, True
             if fk == "interrupt.line":
-                return self.liquid_op(sess, "ok"), True
+                return self.liquid_op(sess, "ok", terminal=True), True
             if fk == "reject.invalid":
                 return self.gen.gen_invalid(sess), True
             return self.liquid_op(sess, fk), True
